@@ -524,6 +524,101 @@ fn confidence(ctx: &Ctx) -> SubReport {
     rep
 }
 
+
+// ---------------------------------------------------------------------------------------------
+// merge partners with different seeds: either refused (documented panic) or the guarantee holds
+
+#[derive(Debug, Clone, Serialize, Deserialize)]
+pub struct SeedPairCase {
+    /// index into the table of seed pairs (pairs with EQUAL 16-bit seed hashes come first)
+    pub pair: u16,
+    pub num_hashes: u8,
+    pub num_buckets: u32,
+    pub items_a: Vec<(u16, u8)>,
+    pub items_b: Vec<(u16, u8)>,
+}
+
+/// Pairs of different seeds: the first 48 share their 16-bit seed hash (found by scanning seeds 1..), the rest
+/// do not. Includes the default seed 9001 with its first colliding partner.
+fn seed_pairs() -> &'static Vec<(u64, u64)> {
+    static PAIRS: std::sync::OnceLock<Vec<(u64, u64)>> = std::sync::OnceLock::new();
+    PAIRS.get_or_init(|| {
+        let mut first_with: std::collections::HashMap<u16, u64> = std::collections::HashMap::new();
+        let mut out = vec![];
+        let want9001 = refhash::seed_hash(9001);
+        let mut s = 1u64;
+        while out.len() < 48 && s < 2_000_000 {
+            let h = refhash::seed_hash(s);
+            if h == want9001 && s != 9001 && !out.iter().any(|p: &(u64, u64)| p.0 == 9001) {
+                out.push((9001, s));
+            } else if let Some(&t) = first_with.get(&h) {
+                if out.len() < 47 {
+                    out.push((t, s));
+                }
+            } else {
+                first_with.insert(h, s);
+            }
+            s += 1;
+        }
+        for i in 0..16u64 {
+            out.push((1000 + i, 5000 + 7 * i));
+        }
+        out
+    })
+}
+
+fn seed_pair_case() -> impl Strategy<Value = SeedPairCase> {
+    (any::<u16>(), 1u8..=8, 3u32..=64, proptest::collection::vec((any::<u16>(), 1u8..=9), 1..40), proptest::collection::vec((any::<u16>(), 1u8..=9), 1..40))
+        .prop_map(|(pair, num_hashes, num_buckets, items_a, items_b)| SeedPairCase { pair, num_hashes, num_buckets, items_a, items_b })
+}
+
+fn seed_pair(c: &SeedPairCase, info: &mut CaseInfo) -> Result<(), Fail> {
+    let pairs = seed_pairs();
+    let (sa, sb) = pairs[pick_idx(c.pair, pairs.len())];
+    let same_hash = refhash::seed_hash(sa) == refhash::seed_hash(sb);
+    info.label(if same_hash { "seed_hash_equal" } else { "seed_hash_differs" });
+    let mut a = CountMinSketch::<u64>::with_seed(c.num_hashes, c.num_buckets, sa);
+    let mut b = CountMinSketch::<u64>::with_seed(c.num_hashes, c.num_buckets, sb);
+    let mut truth: std::collections::BTreeMap<u64, u64> = Default::default();
+    for (it, w) in &c.items_a {
+        a.update_with_weight(*it as u64 % 64, *w as u64);
+        *truth.entry(*it as u64 % 64).or_insert(0) += *w as u64;
+    }
+    for (it, w) in &c.items_b {
+        b.update_with_weight(*it as u64 % 64, *w as u64);
+        *truth.entry(*it as u64 % 64).or_insert(0) += *w as u64;
+    }
+    // a refused merge (the documented panic for incompatible configurations) is fine
+    let merged = crate::kit::runner::guard(|| {
+        let mut m = a.clone();
+        m.merge(&b);
+        Ok(m)
+    });
+    info.nontrivial = same_hash;
+    match merged {
+        Err(_) => {
+            info.label("merge_refused");
+            Ok(())
+        }
+        Ok(m) => {
+            info.label("merge_accepted");
+            let total: u64 = truth.values().sum();
+            ensure!(m.total_weight() == total, "C08.merge_seeds.total_weight", "merge of seeds {sa} and {sb} accepted: total_weight {} but the exact sum is {total}", m.total_weight());
+            for (it, t) in &truth {
+                ensure!(
+                    m.estimate(*it) >= *t,
+                    "C08.merge_seeds.estimate_below_truth",
+                    "merge of sketches with different seeds {sa} and {sb} (seed hashes {} and {}) was accepted, but item {it}: estimate {} < true weight {t}",
+                    refhash::seed_hash(sa),
+                    refhash::seed_hash(sb),
+                    m.estimate(*it)
+                );
+            }
+            Ok(())
+        }
+    }
+}
+
 pub fn def() -> PropDef {
     PropDef {
         id: "C08",
@@ -542,6 +637,16 @@ pub fn def() -> PropDef {
                 limit_factor: 1,
                 strategy: case_strategy,
                 check: run_case,
+            }),
+            Box::new(PropSub {
+                name: "merge_of_different_seeds",
+                rule: "two sketches of equal shape but DIFFERENT seeds - 48 pairs whose 16-bit seed hashes are equal (incl. the default seed 9001 and its first colliding partner) and 16 pairs whose hashes differ - filled and merged under catch_unwind: the merge is either refused (the documented panic) or the merged sketch keeps total_weight and estimate(x) >= truth for every item. non-trivial = equal seed hashes",
+                cases_quick: 20_000,
+                cases_thorough: 300_000,
+                max_shrink_iters: 500,
+                limit_factor: 1,
+                strategy: seed_pair_case,
+                check: seed_pair,
             }),
             Box::new(FnSub {
                 name: "confidence",
